@@ -1,6 +1,8 @@
 package props
 
 import (
+	"encoding/base64"
+	"encoding/json"
 	"fmt"
 	"github.com/freeconf/yang/meta"
 	"github.com/freeconf/yang/node"
@@ -183,8 +185,80 @@ func c10xmlText(c *core.Ctx) {
 	}
 }
 
+// a number converted to an enumeration is the enum with that value, wherever it stands in the list; bytes converted
+// to a binary value read back as the same bytes
+func c10enumAndBinary(c *core.Ctx) {
+	m, err := parser.LoadModuleFromString(nil, `module eb { namespace "urn:eb"; prefix eb; revision 2020-01-01;
+  leaf p { type enumeration { enum idle; enum stopping { value 2; } enum running { value 1; } enum failed; } }
+  leaf q { type enumeration { enum z { value 0; } enum c { value 3; } enum a { value 1; } enum b { value 2; } enum e { value 4; } } }
+  leaf-list pl { type enumeration { enum idle; enum stopping { value 2; } enum running { value 1; } enum failed; } }
+  leaf bin { type binary; }
+}`)
+	if err != nil {
+		c.Violation(core.Replay{Kind: "harness", Summary: "c10enum module: " + err.Error(), NoInputFound: true})
+		return
+	}
+	want := map[string]map[int]string{"p": {0: "idle", 1: "running", 2: "stopping", 3: "failed"}, "q": {0: "z", 1: "a", 2: "b", 3: "c", 4: "e"}}
+	for leaf, ids := range want {
+		t := meta.Find(m, leaf).(meta.Leafable).Type()
+		for id, label := range ids {
+			for _, src := range []interface{}{id, int64(id), float64(id), uint8(id), json.Number(fmt.Sprint(id))} {
+				c.Evaluations++
+				c.Count("enum_by_value", fmt.Sprintf("%T", src))
+				c.Distinct(fmt.Sprint("enumid", leaf, id, fmt.Sprintf("%T", src)))
+				var got string
+				if e := safeDo(func() error {
+					v, err := node.NewValue(t, src)
+					if err != nil {
+						return err
+					}
+					got = v.String()
+					return nil
+				}); e != nil {
+					got = "error " + short(e.Error())
+				}
+				if _, isJSONNumber := src.(json.Number); isJSONNumber && strings.HasPrefix(got, "error") {
+					continue // not a kind the converter knows
+				}
+				if got != label {
+					c.Violation(core.Replay{Kind: "property-failure", Class: "enum-by-value", Summary: fmt.Sprintf("NewValue(leaf %s, %T(%v)) = %s, the enum with value %d is %s", leaf, src, src, got, id, label), Input: fmt.Sprint(leaf, " ", id)})
+				}
+			}
+		}
+	}
+	// a list of values
+	if v, err := node.NewValue(meta.Find(m, "pl").(meta.Leafable).Type(), []int{1, 2, 0, 3}); err != nil || fmt.Sprint(v) != "running,stopping,idle,failed" {
+		c.Violation(core.Replay{Kind: "property-failure", Class: "enum-by-value-list", Summary: fmt.Sprintf("NewValue(leaf-list pl, [1 2 0 3]) = %v (%v), want running,stopping,idle,failed", v, err), Input: "pl [1 2 0 3]"})
+	}
+	// bytes -> binary value -> bytes, every sextet
+	bt := meta.Find(m, "bin").(meta.Leafable).Type()
+	for _, b := range [][]byte{{0xfb, 0xff, 0xfe}, {0xfb, 0xff}, []byte("subjects?"), []byte("hi"), {0}, {}, {0xff, 0xff, 0xff, 0xff}, []byte(">>>???")} {
+		c.Evaluations++
+		c.Count("binary_bytes", fmt.Sprint(len(b)))
+		var back []byte
+		var text string
+		e := safeDo(func() error {
+			v, err := node.NewValue(bt, b)
+			if err != nil {
+				return err
+			}
+			if v == nil {
+				return nil
+			}
+			text = v.String()
+			back, _ = v.Value().([]byte)
+			return nil
+		})
+		stdText := base64.StdEncoding.EncodeToString(b)
+		if e != nil || (len(b) > 0 && (string(back) != string(b) || text != stdText)) {
+			c.Violation(core.Replay{Kind: "property-failure", Class: "binary-bytes", Summary: fmt.Sprintf("NewValue(binary, %v): text %q (RFC 4648 §4 gives %q), read back as %v (%v)", b, text, stdText, back, e), Input: fmt.Sprint(b)})
+		}
+	}
+}
+
 func C10(c *core.Ctx) {
 	c10xmlText(c)
+	c10enumAndBinary(c)
 	c.Rule = "complete boundary matrix: 8 integer targets × (10 Go integer kinds × boundary values of the kind ∪ float64/float32 boundary set ∪ string boundary set) + decimal64/bool/string targets + list forms + ConvOneOf; thorough adds random values and exhaustive 8/16-bit sources; directed: the text of XML elements of 16 leaf kinds (string, union, numbers, boolean, enumeration, leafrefs to them, as leaf and leaf-list) with surrounding white space through ReadXMLDoc. non-trivial = source denotes a number at or beyond a range boundary of source or target kind; distinct by (target, kind, value)"
 	c.Assumptions = append(c.Assumptions,
 		"strconv.ParseInt/ParseUint base 10 = the model's decimal parser (exercised on the string boundary set)",
